@@ -157,6 +157,9 @@ pub enum Inject {
     ThreadLocalHeld,
     /// `set_time_source(ts)` + `Stopwatch::default()`, override removed right after construction
     ThreadLocalDropped,
+    /// `set_time_source(ts)` kept; an inner override with another clock begins and ends before
+    /// `Stopwatch::new()` (the outer one must be in force again, also for later borrowed guards)
+    ThreadLocalNested,
 }
 impl Inject {
     pub fn name(self) -> &'static str {
@@ -164,10 +167,11 @@ impl Inject {
             Inject::Explicit => "explicit:new_from_timesource",
             Inject::ThreadLocalHeld => "thread-local-held:new",
             Inject::ThreadLocalDropped => "thread-local-dropped:default",
+            Inject::ThreadLocalNested => "thread-local-outer-after-inner-override-ended:new",
         }
     }
     pub fn parse(s: &str) -> Option<Inject> {
-        [Inject::Explicit, Inject::ThreadLocalHeld, Inject::ThreadLocalDropped].into_iter().find(|i| i.name() == s)
+        [Inject::Explicit, Inject::ThreadLocalHeld, Inject::ThreadLocalDropped, Inject::ThreadLocalNested].into_iter().find(|i| i.name() == s)
     }
 }
 
@@ -241,6 +245,13 @@ pub fn exec(history: &[Op], inj: Inject, recs: &mut Vec<(usize, Rec)>) {
             let sw = Stopwatch::default();
             drop(g);
             sw
+        }
+        Inject::ThreadLocalNested => {
+            tl_guard = Some(set_time_source(ts));
+            let decoy = ManuallyAdvancedTimeSource::at_time(UNIX_EPOCH + Duration::from_secs(77_000_000));
+            let inner = set_time_source(TimeSource::custom(decoy));
+            drop(inner);
+            Stopwatch::new()
         }
     };
     let mut owned: Vec<OwnedTimerGuard> = Vec::new();
@@ -621,7 +632,7 @@ pub fn run(rep: &mut Report) -> Summary {
     // depth 10 = 944 M in ~80 s (VERIF_C18_DEPTH overrides, for measuring only)
     let depth: usize = std::env::var("VERIF_C18_DEPTH").ok().and_then(|s| s.parse().ok()).unwrap_or(rep.tier.pick(8, 10));
     // the thread-local injection routes are searched two levels less deep
-    let plans = [(Inject::Explicit, depth), (Inject::ThreadLocalHeld, depth - 2), (Inject::ThreadLocalDropped, depth - 2)];
+    let plans = [(Inject::Explicit, depth), (Inject::ThreadLocalHeld, depth - 2), (Inject::ThreadLocalDropped, depth - 2), (Inject::ThreadLocalNested, depth - 3)];
     let mut total = St::default();
     let mut per_route = Vec::new();
     for (inj, d) in plans {
